@@ -28,7 +28,7 @@ FAULT_KINDS = ["disk_write", "disk_remove", "disk_mkdir_over", "disk_nonutf8", "
                "proto_unknown_request", "proto_request_closed_doc", "proto_ranged_change", "burst"]
 PROBES = ["parse_error_then_valid", "valid_then_parse_error", "close_then_reopen", "duplicate_open", "change_never_opened", "request_closed_document",
           "position_beyond_last_line", "non_ascii_line", "crlf_text", "burst_ge_8", "disk_fault_then_close", "strict_final_compared",
-          "fmt_oracle_rejects", "fmt_oracle_accepts", "build_oracle_succeeds", "overlay_episode_closed", "final_probes_compared", "workspace_root_via_symlink", "identical_text_resent", "library_tabs_restored", "version_restarts_after_reopen", "definition_answered", "hover_answered", "semtok_nonempty",
+          "fmt_oracle_rejects", "fmt_oracle_accepts", "build_oracle_succeeds", "overlay_episode_closed", "final_probes_compared", "workspace_root_via_symlink", "identical_text_resent", "library_tabs_restored", "version_restarts_after_reopen", "root_path_needs_percent_encoding", "definition_answered", "hover_answered", "semtok_nonempty",
           "wssym_nonempty", "completion_nonempty", "non_file_uri"]
 REQS = ["hover", "definition", "completion", "semtok", "wssym"]
 
@@ -300,7 +300,9 @@ def generate(rng, tier, idx):
     return {"workspace": ws, "docs": docs, "mode": mode, "session": session, "nested": nested, "root_uri": not (mode["protocol"] and rng.chance(10)),
             "final_probes": final_probes,
             # the editor reaches the project through a symbolic link: root URI and every document URI carry the link's path
-            "root_via_symlink": rng.chance(15)}
+            "root_via_symlink": rng.chance(15),
+            # a project directory whose name has to be percent-encoded in URIs
+            "root_name": rng.weighted([("ws", 8), ("my ws", 1), ("wörk späce", 1), ("w%20s#1", 1)])}
 
 
 def render(world):
@@ -313,7 +315,7 @@ def render(world):
 def doc_uri(sb, root, d):
     if d["kind"] == "untitled":
         return "untitled:" + d["path"].replace("/", "-")
-    return "file://" + sb.p(root + "/" + d["path"])
+    return lsp_client.path_to_uri(sb.p(root + "/" + d["path"]))
 
 
 def norm_uri(sb, uri):
@@ -413,10 +415,12 @@ def decode_semtok(data):
 def execute(world, sb, res):
     mode = world["mode"]
     docs = world["docs"]
-    root = "ws"
+    root = world.get("root_name", "ws")
     sb.mkdir(root)
+    if root != "ws":
+        res.probe("root_path_needs_percent_encoding")
     if world.get("root_via_symlink"):
-        sb.symlink("wslink", "ws")
+        sb.symlink("wslink", root)
         root = "wslink"
         res.probe("workspace_root_via_symlink")
     sb.mkdir("oracle")
@@ -429,7 +433,7 @@ def execute(world, sb, res):
         if d.get("disk_text") is not None:
             sb.write(root + "/" + d["path"], d["disk_text"])
     uris = [doc_uri(sb, root, d) for d in docs]
-    lib_uris = ["file://" + sb.p(root + "/" + w["path"]) for w in world["workspace"]]
+    lib_uris = [lsp_client.path_to_uri(sb.p(root + "/" + w["path"])) for w in world["workspace"]]
     if any(d["kind"] != "file" for d in docs):
         res.probe("non_file_uri")
     srv = lsp_client.Server(sb, root)
@@ -452,7 +456,7 @@ def execute(world, sb, res):
         if uri in bufs:
             return bufs[uri]
         if uri.startswith("file://"):
-            p = uri[len("file://"):]
+            p = lsp_client.uri_to_path(uri)
             try:
                 with open(p, "rb") as f:
                     return f.read().decode("utf-8")
@@ -536,6 +540,9 @@ def execute(world, sb, res):
                                     break
                                 if ch + length > lsp_client.utf16_len(lines[ln]):
                                     res.metric("semtok_character_beyond_line_end")
+                                    if tt not in (2, 4) and all(ord(c) < 128 for c in lines[ln]):
+                                        # not a string or comment (those may span lines), on a line where bytes, chars and UTF-16 units agree
+                                        res.metric("semtok_ascii_token_beyond_line_end")
                     else:
                         if result:
                             if exp["kind"] == "hover":
@@ -560,7 +567,7 @@ def execute(world, sb, res):
                     return
                 had_fault = True
                 full = root + "/" + msg["path"]
-                uri = "file://" + sb.p(full)
+                uri = lsp_client.path_to_uri(sb.p(full))
                 tainted.add(uri)
                 try:
                     if msg["op"] in ("write", "create"):
@@ -807,7 +814,7 @@ def execute(world, sb, res):
                 fo = fmt_oracle(sb, res, fmt_cache, final)
                 if uri.startswith("file://") and fo is not None and not fo[0]:
                     import shutil
-                    rel = uri[len("file://") + len(sb.root) + 1:]
+                    rel = lsp_client.uri_to_path(uri)[len(sb.root) + 1:]
                     # scratch copy of the workspace with the final text in place
                     if os.path.exists(sb.p("scratch")):
                         shutil.rmtree(sb.p("scratch"))
